@@ -155,6 +155,16 @@ def check_read(rec, w, field: bytes, rng):
     if got != want:
         rec.violation("C13", "read:not-cut-at-first-NUL" if z >= 0 else "read:full-width-string",
                       f"got {got[:40]!r} want {want[:40]!r}", case)
+    # the stream variant reads the same field the same way and leaves the stream right behind it
+    rec.count("oracle:C13.bread==read")
+    buf = BytesIO(b"\x11" * 3 + field + b"\xAB\xCD")
+    buf.seek(3)
+    try:
+        got_s = BTSString.bread(buf, w)
+        if got_s != want or buf.read(2) != b"\xAB\xCD":
+            rec.violation("C13", "bread:differs-from-read", f"bread gave {got_s[:40]!r}, field holds {want[:40]!r}", case)
+    except Exception as e:
+        rec.violation("C13", "bread:raises", f"{type(e).__name__}: {e}", case, exc=e)
     if z >= 0 and z + 1 < w:
         other = field[:z + 1] + bytes(rng.getrandbits(8) for _ in range(w - z - 1))
         rec.count("oracle:C13.read-tail-independent")
